@@ -20,21 +20,35 @@ ExpB(c, s, mult) == [q \in 1..(c.nt * c.tr[s].nl * c.nj * c.ni) |->
 \* twice the scale factor 2^scale2 of the tracer table (scale2 in -1..1)
 Scale2x(k) == CASE k = -1 -> 1 [] k = 0 -> 2 [] k = 1 -> 4
 
-ReadDiag(c, tr, got, scaled) ==
+\* twice the multiplier of tracer s in a scaled read: the table scale, or 1 for a
+\* tracer without a table line
+Mult2(c, s, scaled) == IF scaled /\ c.tr[s].intab THEN Scale2x(c.tr[s].scale2) ELSE 2
+\* the block-walking reader scales a tracer without a table line like the bare tracer
+BareScale2x(c, s) == LET qs == {q \in 1..Len(c.tr) : c.tr[q].off = 0 /\ c.tr[q].id = c.tr[s].id} IN
+                     IF qs = {} THEN 2 ELSE Scale2x(c.tr[CHOOSE q \in qs : TRUE].scale2)
+DataOK(c, s, x2, scaled, alt) ==
+  \/ x2 = ExpB(c, s, Mult2(c, s, scaled))
+  \/ (alt /\ scaled /\ ~c.tr[s].intab /\ x2 = ExpB(c, s, BareScale2x(c, s)))
+ExpUnit(c, tr, s) == IF c.tr[s].intab THEN tr.tableunits[s] ELSE tr.headerunits[s]
+
+ReadDiagA(c, tr, got, scaled, alt) ==
   IF got.dims.time # c.nt THEN "number of time blocks"
   ELSE IF got.dims.latitude # c.nj \/ got.dims.longitude # c.ni THEN "horizontal grid"
   ELSE IF \E s \in 1..Len(c.tr) : got.vars[s].found = FALSE THEN "a tracer variable (category_name) is missing"
   ELSE IF \E s \in 1..Len(c.tr) : got.vars[s].shape # <<c.nt, c.tr[s].nl, c.nj, c.ni>> THEN "shape of a tracer variable (per-tracer layer count)"
   ELSE IF \E s \in 1..Len(c.tr) : got.vars[s].tracerid # c.tr[s].id THEN "tracer identifier"
   ELSE IF \E s \in 1..Len(c.tr) : ~got.vars[s].ok THEN "values are not the encoded (scaled) values"
-  ELSE IF \E s \in 1..Len(c.tr) : got.vars[s].x2 # ExpB(c, s, IF scaled THEN Scale2x(c.tr[s].scale2) ELSE 2)
-       THEN "tracer data of variable " \o ToString(CHOOSE s \in 1..Len(c.tr) : got.vars[s].x2 # ExpB(c, s, IF scaled THEN Scale2x(c.tr[s].scale2) ELSE 2))
-  ELSE IF scaled /\ (\E s \in 1..Len(c.tr) : got.vars[s].units # tr.tableunits[s]) THEN "unit is not the one of the tracer table"
+  ELSE IF \E s \in 1..Len(c.tr) : ~DataOK(c, s, got.vars[s].x2, scaled, alt)
+       THEN "tracer data of variable " \o ToString(CHOOSE s \in 1..Len(c.tr) : ~DataOK(c, s, got.vars[s].x2, scaled, alt))
+  ELSE IF scaled /\ (\E s \in 1..Len(c.tr) : (c.tr[s].intab \/ ~alt) /\ got.vars[s].units # ExpUnit(c, tr, s))
+       THEN "unit is not the one of the tracer table (of the data header for a tracer without a table line)"
   ELSE IF got.tau0 # [t \in 1..c.nt |-> Tau0(c, t)] THEN "tau0 (time bounds)"
   ELSE IF got.tau1 # [t \in 1..c.nt |-> Tau0(c, t) + 24] THEN "tau1 (time bounds)"
   \* the time_bounds variable, when the reader defines it: row t = [tau0[t], tau1[t]]
   ELSE IF Len(got.tb) > 0 /\ got.tb # [t \in 1..c.nt |-> <<Tau0(c, t), Tau0(c, t) + 24>>] THEN "time_bounds rows are not [tau0, tau1] of each block"
   ELSE ""
+
+ReadDiag(c, tr, got, scaled) == ReadDiagA(c, tr, got, scaled, FALSE)
 
 \* ReadDiag restricted to the first nsteps blocks (truncation scans)
 PrefixDiag(c, got, nsteps) ==
@@ -63,14 +77,14 @@ TStep ==
        /\ ChkT(tr, 1, "second write/read raised: " \o tr.rt.exc, tr.rt.res = "ok")
        /\ ChkS(tr, 1, "read(write(f)) differs from f", ReadDiag(c, tr, tr.rt.got, TRUE))
        /\ IF tr.alt.res # "ok" THEN ChkT(tr, 1, "block-walking reader raised: " \o tr.alt.exc, FALSE)
-          ELSE ChkS(tr, 1, "block-walking reader presents other data than the memory-mapped one", ReadDiag(c, tr, tr.alt.got, TRUE))
+          ELSE ChkS(tr, 1, "block-walking reader presents other data than the memory-mapped one", ReadDiagA(c, tr, tr.alt.got, TRUE, TRUE))
        \* the block-walking object keeps its arrays: written twice, the second
        \* file and the object itself still hold the same data
        /\ (tr.alt.res = "ok" =>
              /\ ChkT(tr, 1, "writing the block-walking object twice raised: " \o tr.rt2.exc, tr.rt2.res = "ok")
-             /\ ChkS(tr, 1, "second write of the same object: read(write(f)) differs from f", ReadDiag(c, tr, tr.rt2.got, TRUE))
+             /\ ChkS(tr, 1, "second write of the same object: read(write(f)) differs from f", ReadDiagA(c, tr, tr.rt2.got, TRUE, TRUE))
              /\ ChkT(tr, 1, "source object after two writes raised: " \o tr.src2.exc, tr.src2.res = "ok")
-             /\ ChkS(tr, 1, "writing changed the source object's data", ReadDiag(c, tr, tr.src2.got, TRUE)))
+             /\ ChkS(tr, 1, "writing changed the source object's data", ReadDiagA(c, tr, tr.src2.got, TRUE, TRUE)))
      \* C14: every prefix of the reference-encoded file opened by the memory-mapped reader
      [] tr.kind = "cuts" ->
        LET pos == PosSeq(c) IN
